@@ -8,6 +8,7 @@ import (
 	"fmt"
 	"go/token"
 	"go/types"
+	"os"
 	"strings"
 
 	"golang.org/x/tools/go/ssa"
@@ -77,9 +78,64 @@ func init() {
 		"(*sync.RWMutex).Unlock":  extMutexUnlock,
 		"(*sync.RWMutex).RLock":   extMutexLock,
 		"(*sync.RWMutex).RUnlock": extMutexUnlock,
-		"(*sync.WaitGroup).Add":   func(fr *frame, a []value) value { return nil },
-		"(*sync.WaitGroup).Done":  func(fr *frame, a []value) value { return nil },
-		"(*sync.WaitGroup).Wait":  func(fr *frame, a []value) value { return nil },
+		// WaitGroup: a counter; Wait lets the other actors run (OnBlock) and
+		// blocks while the counter is positive
+		"(*sync.WaitGroup).Add": func(fr *frame, a []value) value {
+			key := fmt.Sprintf("wg:%p", a[0].(*value))
+			n, _ := fr.i.side[key].(int)
+			n += int(asInt64(a[1]))
+			if n < 0 {
+				panic(targetPanic{iface{t: types.Typ[types.String], v: "sync: negative WaitGroup counter"}})
+			}
+			fr.i.side[key] = n
+			return nil
+		},
+		"(*sync.WaitGroup).Done": func(fr *frame, a []value) value {
+			key := fmt.Sprintf("wg:%p", a[0].(*value))
+			if os.Getenv("VF_DEBUG_SETTLE") != "" {
+				fmt.Fprintf(os.Stderr, "wg.Done %s = %v\n", key, fr.i.side[key])
+			}
+			n, _ := fr.i.side[key].(int)
+			if n <= 0 {
+				panic(targetPanic{iface{t: types.Typ[types.String], v: "sync: negative WaitGroup counter"}})
+			}
+			fr.i.side[key] = n - 1
+			return nil
+		},
+		"(*sync.WaitGroup).Wait": func(fr *frame, a []value) value {
+			key := fmt.Sprintf("wg:%p", a[0].(*value))
+			if os.Getenv("VF_DEBUG_SETTLE") != "" {
+				fmt.Fprintf(os.Stderr, "wg.Wait %s = %v inOnBlock=%v\n", key, fr.i.side[key], fr.i.inOnBlock)
+			}
+			for k := 0; k < 64; k++ {
+				if n, _ := fr.i.side[key].(int); n == 0 {
+					return nil
+				}
+				if fr.i.onBlock == nil || fr.i.inOnBlock {
+					break
+				}
+				fr.i.inOnBlock = true
+				progress := call(fr.i, fr, token.NoPos, fr.i.onBlock, nil)
+				fr.i.inOnBlock = false
+				if b, ok := progress.(bool); !ok || !b {
+					break
+				}
+			}
+			if n, _ := fr.i.side[key].(int); n == 0 {
+				return nil
+			}
+			panic(blockedPanic{"WaitGroup.Wait with a positive counter"})
+		},
+		"time.After": func(fr *frame, a []value) value {
+			ch := &vchan{cap: 1}
+			fr.i.side[fmt.Sprintf("after:%p", ch)] = true
+			return ch
+		},
+		"runtime.Stack": func(fr *frame, a []value) value { return 0 },
+		zz + "TimeoutsFired": func(fr *frame, a []value) value {
+			n, _ := fr.i.side["timeouts-fired"].(int)
+			return n
+		},
 		"(*sync.Once).Do":         extOnceDo,
 		// sync.Pool: never retains anything
 		"(*sync.Pool).Put": func(fr *frame, a []value) value { return nil },
@@ -275,10 +331,20 @@ func extSettle(fr *frame, a []value) value {
 			continue
 		}
 		th.done = true
+		before := fr.i.effects
 		func() {
 			defer func() {
 				if r := recover(); r != nil {
 					if _, ok := r.(blockedPanic); ok {
+						// a goroutine that blocked before it had any effect
+						// is simply still waiting: it is started again at
+						// the next Settle
+						if fr.i.effects == before {
+							th.done = false
+						}
+						if os.Getenv("VF_DEBUG_SETTLE") != "" {
+							fmt.Fprintf(os.Stderr, "settle: thunk %d blocked (%v) effects %d->%d\n", k, r, before, fr.i.effects)
+						}
 						return
 					}
 					panic(r)
